@@ -97,3 +97,27 @@ func placeholderise(matcher, cfg string) (string, map[string]string) {
 	}
 	return string(out), env
 }
+
+// placeholderiseFixed rewrites the first entry of "ranges" into {env.<name>} and returns the literal it stood for.
+func placeholderiseFixed(matcher, cfg, name string) (string, string) {
+	dec := json.NewDecoder(bytes.NewReader([]byte(cfg)))
+	dec.UseNumber()
+	var root map[string]any
+	if dec.Decode(&root) != nil || root == nil {
+		return cfg, ""
+	}
+	l, ok := root["ranges"].([]any)
+	if !ok || len(l) == 0 {
+		return cfg, ""
+	}
+	lit, ok := l[0].(string)
+	if !ok || lit == "" || strings.ContainsAny(lit, "{}") || lit == "private_ranges" {
+		return cfg, ""
+	}
+	l[0] = "{env." + name + "}"
+	out, err := json.Marshal(root)
+	if err != nil {
+		return cfg, ""
+	}
+	return string(out), lit
+}
